@@ -137,7 +137,9 @@ def run(ctx):
         'rule': "every single-bit flip and every proper prefix of the encoding of %s blocks (easy-target universe, where the "
                 "id-below-target rule never fires, and real-genesis universe); a mutant is non-trivial when it decodes and "
                 "reaches full validation" % dict(nblocks),
-        'samples': [{'block': 'f/s/d', 'mutation': 'flip bit 0 of byte 1'}, {'block': 'f/s/a', 'mutation': 'truncate to 100 bytes'}],
+        'samples': [{'universe': j[0], 'block': '/'.join(j[1][0]), 'mutations': ['flip bit 0 of byte 0', 'flip bit 1 of byte 0',
+                                                                              '... every bit of every byte ...', 'truncate to 0 bytes',
+                                                                              '... every proper prefix ...']} for j in jobs[:2]],
         'exhaustive': True, 'blocks': nblocks, 'controls_accepted': st['controls_accepted'],
         'controls_rejected': st['controls_rejected'], 'controls_own_assembly': st['controls_own_assembly'], 'undecodable': st['undecodable'], 'accepted': st['accepted'],
         'rejecting_rule_histogram': dict(rules.most_common(40)),
